@@ -1275,3 +1275,40 @@ seeded("f6-list-as-dict-key", ["C06"], "F6", [(F, '''                if isinstan
 benign("c06-require-helper-inlined-const", ["C06"], [(F, '''                cmd = commands.get_command_instance("envelope", ifcontrol, False)
                 self.require("envelope")''', '''                cmd = commands.get_command_instance("envelope", ifcontrol, False)
                 self.require(cmd.extension)''')])
+
+# --------------------------------------------------------------------------- C19
+seeded("b1-address-not-read", ["C19"], "B1", [(F, '''                    commands.HeaderCommand,
+                    commands.AddressCommand,''', '''                    commands.HeaderCommand,''')], "pre-fix behaviour")
+seeded("b1-body-not-read", ["C19"], "B1", [(F, '''                    commands.BodyCommand,
+''', '')], "test_get_filter_conditions covers body... kept as checker test")
+seeded("b1-envelope-negation-unfolded", ["C19"], "B1", [(F, '''                    if node.name in ["header", "envelope", "address"]:''', '''                    if node.name in ["header", "address"]:''')], "a :notis envelope condition reads back as :is")
+seeded("b1-currentdate-no-tuple", ["C19"], "B1", [(C, '''    def args_as_tuple(self):
+        """Return arguments as a list."""
+        result = ("currentdate",)''', '''    def as_tuple(self):
+        """Return arguments as a list."""
+        result = ("currentdate",)''')])
+seeded("b2-envelope-comma-decides", ["C19"], "B2", [(C, '''        value = self.arguments["header-list"]
+        if isinstance(value, list):
+            # FIXME
+            value = "[{}]".format(",".join('"{}"'.format(item) for item in value))
+        if value.startswith("["):
+            result += (tools.to_list(value),)
+        else:
+            result += ([value.strip('"')],)
+        value = self.arguments["key-list"]''', '''        value = self.arguments["header-list"]
+        if isinstance(value, list):
+            # FIXME
+            value = "[{}]".format(",".join('"{}"'.format(item) for item in value))
+        if "," in value:
+            result += (tools.to_list(value),)
+        else:
+            result += ([value.strip('"[]')],)
+        value = self.arguments["key-list"]''')], "a new comma-based decision (not in the known findings)")
+seeded("b3-conditions-bypass-getfilter", ["C19"], "B3", [(F, '''        """Retrieve conditions of the given filter."""
+        flt = self.getfilter(name)''', '''        """Retrieve conditions of the given filter."""
+        flt = next((f["content"] for f in self.filters if f["name"] == name), None)''')], "disabled filters read back as no conditions")
+benign("c19-reader-tuple-reordered", ["C19"], [(F, '''                    commands.HeaderCommand,
+                    commands.AddressCommand,
+                    commands.SizeCommand,''', '''                    commands.AddressCommand,
+                    commands.HeaderCommand,
+                    commands.SizeCommand,''')])
